@@ -363,13 +363,13 @@ class C55(ShmProp):
             'StoreMap::Init, 1-4 keys (colliding anchor positions included), a real PageStack as slice allocator and the harness as StoreMapCleaner. '
             'Operations: openForWriting+setKey, append slice, startAppending, closeForWriting, abortWriting, switchWritingToReading, openForReading, walk '
             'the chain, closeForReading, closeForReadingAndFreeIdle, freeEntry (by a holder / by position), freeEntryByKey, purgeOne; three scheduling '
-            'policies, optional kid crash, 3 schedule seeds per case. openForUpdating/closeForUpdating/abortUpdating cases are generated only with '
-            'VERIF_C55_UPDATES=1 (their violation classes are prefixed "upd-"): on the unchanged tree they fail, see tools/props/p_shm.py. '
+            'policies, optional kid crash, 3 schedule seeds per case. A third of the cases also contain openForUpdating/closeForUpdating/abortUpdating '
+            '(violation classes prefixed "upd-"; the unchanged tree has two known findings there, see known_findings.json; VERIF_C55_UPDATES=0 leaves them out). '
             'non-trivial = at least one pre-emption; distinct = distinct case text')
     _base_probes = ['c55.write_open_ok', 'c55.write_open_failed', 'c55.read_open_ok', 'c55.read_open_failed', 'c55.read_open_of_appending_entry',
                     'c55.slices_visited', 'c55.full_chains_verified', 'c55.slices_freed', 'c55.certain_deletions', 'c55.purged',
                     'c55.read_closed_free_idle', 'c55.write_aborted', 'c55.quiescent_checks', 'fault.shm.kid_crash']
-    # share of cases that contain openForUpdating/closeForUpdating/abortUpdating. Off by default: on the unchanged tree those cases expose
+    # share of cases that contain openForUpdating/closeForUpdating/abortUpdating. On the unchanged tree those cases expose
     # what look like genuine defects of the update code (see the report / VERIF_C55_UPDATES=1 to reproduce); their violation classes
     # carry the prefix "upd-" so that they can be matched separately. Minimal cases (mode shm:run storemap):
     #   A  keys=0 slots=5 pol=C seed=10 | W0 a a a c | R0 n | G0 F0
@@ -378,7 +378,7 @@ class C55(ShmProp):
     #   B  keys=0 slots=6 pol=P3 seed=25 | W0 a a a c G0 G0 | G0 G0 G0 G0 G0 G0 G0 G0 G0 G0
     #      openForUpdating() read-opens, stalls, later gets the headers lock of an anchor that another updater superseded meanwhile
     #      (waitingToBeFreed is not re-checked) and updates the stale version
-    with_updates = float(os.environ.get('VERIF_C55_UPDATES', '0') or 0) and 0.33
+    with_updates = float(os.environ.get('VERIF_C55_UPDATES', '1') or 0) and 0.33
     expected_probes = _base_probes + (['c55.update_committed', 'c55.update_aborted'] if with_updates else [])
 
     def gen_case(self, rng, cid):
